@@ -1,0 +1,99 @@
+//go:build verif && !js
+
+package websocket
+
+// This file is compiled only with the "verif" build tag. It exports a few
+// internals to the verification machinery under /verif and adds no behaviour.
+
+import (
+	"bufio"
+	"context"
+	"io"
+	"net/http"
+)
+
+// VerifCompression mirrors compressionOptions.
+type VerifCompression struct {
+	ClientNoContextTakeover bool
+	ServerNoContextTakeover bool
+}
+
+// VerifNewConn builds a Conn directly over rwc, the way Dial (client) and
+// Accept (server) do after a successful handshake.
+func VerifNewConn(rwc io.ReadWriteCloser, client bool, comp *VerifCompression, threshold int) *Conn {
+	var copts *compressionOptions
+	if comp != nil {
+		copts = &compressionOptions{
+			clientNoContextTakeover: comp.ClientNoContextTakeover,
+			serverNoContextTakeover: comp.ServerNoContextTakeover,
+		}
+	}
+	cfg := connConfig{
+		rwc:            rwc,
+		client:         client,
+		copts:          copts,
+		flateThreshold: threshold,
+	}
+	if client {
+		cfg.br = getBufioReader(rwc)
+		cfg.bw = getBufioWriter(rwc)
+	} else {
+		cfg.br = bufio.NewReader(rwc)
+		cfg.bw = bufio.NewWriter(rwc)
+	}
+	return newConn(cfg)
+}
+
+// VerifConnInfo reports the role and negotiated compression parameters of c.
+func VerifConnInfo(c *Conn) (client bool, comp *VerifCompression, threshold int) {
+	if c.copts != nil {
+		comp = &VerifCompression{
+			ClientNoContextTakeover: c.copts.clientNoContextTakeover,
+			ServerNoContextTakeover: c.copts.serverNoContextTakeover,
+		}
+	}
+	return c.client, comp, c.flateThreshold
+}
+
+// VerifMaskGo exposes the portable masking implementation.
+func VerifMaskGo(b []byte, key uint32) uint32 { return maskGo(b, key) }
+
+// VerifMask exposes the masking function the connection code calls.
+func VerifMask(b []byte, key uint32) uint32 { return mask(b, key) }
+
+// VerifDial exposes dial with its randomness source.
+func VerifDial(ctx context.Context, u string, opts *DialOptions, rand io.Reader) (*Conn, *http.Response, error) {
+	return dial(ctx, u, opts, rand)
+}
+
+// VerifSelectDeflate exposes the server side of the extension negotiation.
+func VerifSelectDeflate(h http.Header, mode CompressionMode) (*VerifCompression, string, bool) {
+	copts, ok := selectDeflate(websocketExtensions(h), mode)
+	if !ok {
+		return nil, "", false
+	}
+	return &VerifCompression{
+		ClientNoContextTakeover: copts.clientNoContextTakeover,
+		ServerNoContextTakeover: copts.serverNoContextTakeover,
+	}, copts.String(), true
+}
+
+// VerifReadFrameHeader / VerifWriteFrameHeader expose the frame header codec.
+type VerifHeader struct {
+	Fin, Rsv1, Rsv2, Rsv3 bool
+	Opcode                int
+	PayloadLength         int64
+	Masked                bool
+	MaskKey               uint32
+}
+
+func VerifReadFrameHeader(r *bufio.Reader) (VerifHeader, error) {
+	var buf [8]byte
+	h, err := readFrameHeader(r, buf[:])
+	return VerifHeader{h.fin, h.rsv1, h.rsv2, h.rsv3, int(h.opcode), h.payloadLength, h.masked, h.maskKey}, err
+}
+
+func VerifWriteFrameHeader(h VerifHeader, w *bufio.Writer) error {
+	var buf [8]byte
+	return writeFrameHeader(header{h.Fin, h.Rsv1, h.Rsv2, h.Rsv3, opcode(h.Opcode), h.PayloadLength, h.Masked, h.MaskKey}, w, buf[:])
+}
